@@ -1,7 +1,7 @@
 (* C14 -- filter text is parsed as RFC 4515 defines it. *)
 From Coq Require Import ZArith NArith List Bool.
 From Coq.Strings Require Import Byte.
-From SV Require Import Base.Bytes Base.Py Rx.Syntax Gen.Generated Msg.Types Msg.Encode Msg.Rfc Msg.RfcConform
+From SV Require Import Gen.Sharing Base.Bytes Base.Py Rx.Syntax Gen.Generated Msg.Types Msg.Encode Msg.Rfc Msg.RfcConform
   Filt.Text Filt.Value Filt.Simple Filt.RoundTrip Filt.Grammar.
 Import ListNotations.
 
@@ -61,8 +61,16 @@ Proof.
   repeat (apply vt_raw; [vm_compute; reflexivity|]). constructor.
 Qed.
 
+(* The theorems above are about functions and values; that the text half of _filter.py (from_string, __str__ and their helpers) keeps no state
+   between calls and shares none between objects is read off the source by tools/audit.py on every run
+   (Gen/Sharing.v): no memoisation, no module- or class-level container that is written, no mutable default, no
+   attribute written behind a dataclass, no parameter stored without a copy. *)
+Theorem C14_audit_no_state_between_calls : (hidden_state_filter_text = [])%list.
+Proof. exact eq_refl. Qed.
+
 Print Assumptions C14_every_sentence_parses_to_its_tree.
 Print Assumptions C14_sentence_in_context.
 Print Assumptions C14_value_grammar.
 Print Assumptions C14_encoded_as_rfc4511.
 Print Assumptions C14_str_is_a_sentence.
+Print Assumptions C14_audit_no_state_between_calls.
